@@ -24,7 +24,7 @@
 //                              Model side: `Timed.probe`; oracle: `TimedSpec.probeCheck`.
 //
 // Copied from `mod tests` of event/mod.rs (private there): make_global, make_tables,
-// default_peer_params, loopback_pair.
+// default_peer_params (loopback pairs: rig::loopback_pair).
 #![allow(dead_code)]
 
 use super::super::*;
@@ -88,13 +88,6 @@ fn default_peer_params(remote_addr: IpAddr) -> PeerParams {
     }
 }
 
-async fn loopback_pair() -> (tokio::net::TcpStream, tokio::net::TcpStream) {
-    let listener = tokio::net::TcpListener::bind("127.0.0.1:0").await.unwrap();
-    let addr = listener.local_addr().unwrap();
-    let (client, server) = tokio::join!(tokio::net::TcpStream::connect(addr), listener.accept(),);
-    (client.unwrap(), server.unwrap().0)
-}
-
 /// Outputs a probe case may contain (`TimedSpec.probeOut`): the task carries on after them and
 /// they need no session context.
 fn parse_probe_out(t: &Term) -> Option<crate::fsm::PeerFsmOutput> {
@@ -152,7 +145,7 @@ fn armed_t(fu: &FuturesUnordered<tokio::time::Sleep>, now: tokio::time::Instant)
 async fn run_probe(outs: Vec<crate::fsm::PeerFsmOutput>) -> String {
     let global = make_global();
     let tables = make_tables();
-    let (client, server) = loopback_pair().await;
+    let (client, server) = rig::loopback_pair(); // one listener per process: see rig.rs
     let remote_addr = client.local_addr().unwrap().ip();
     {
         let mut g = global.write().await;
@@ -230,7 +223,14 @@ fn verif_main() {
         .start_paused(true) // virtual time: see rig.rs (`wait`), and the probes below need no real waiting
         .build()
         .unwrap();
-    std::panic::set_hook(Box::new(|_| {}));
+    // only the first panic of a process is reported (stderr), with the case it happened in: a harness
+    // process that panics on every case after some point must be diagnosable from the first message
+    static FIRST_PANIC: std::sync::atomic::AtomicBool = std::sync::atomic::AtomicBool::new(true);
+    std::panic::set_hook(Box::new(|info| {
+        if FIRST_PANIC.swap(false, std::sync::atomic::Ordering::SeqCst) {
+            eprintln!("C08 harness: first panic of this process: {}", info);
+        }
+    }));
     sexp::run_lines(&inp, &out, |l| {
         std::panic::catch_unwind(std::panic::AssertUnwindSafe(|| run_line(&rt, l)))
             .unwrap_or_else(|_| "(panic)".into())
